@@ -390,6 +390,20 @@ def assigned_names(stmts):
     return out
 
 
+def mutated_names(stmts):
+    """Local names whose object is mutated in these statements (x.append(..), x[k] = v, x += ..)."""
+    out = set()
+    for s in stmts:
+        for n in ast.walk(s):
+            if isinstance(n, (ast.Lambda,)):
+                continue
+            if isinstance(n, ast.Call) and isinstance(n.func, ast.Attribute) and isinstance(n.func.value, ast.Name) and n.func.attr in MUTATORS:
+                out.add(n.func.value.id)
+            if isinstance(n, ast.Subscript) and isinstance(n.ctx, (ast.Store, ast.Del)) and isinstance(n.value, ast.Name):
+                out.add(n.value.id)
+    return out
+
+
 def may_raise_stmt(st):
     for n in ast.walk(st):
         if isinstance(n, (ast.Call, ast.Subscript, ast.Raise, ast.Attribute, ast.BinOp, ast.Assert)):
@@ -624,7 +638,7 @@ class Evaluator:
         uid = self.uid()
         info = LoopInfo(uid, kind, st)
         self.loops[uid] = info
-        assigned = assigned_names(st.body)
+        assigned = assigned_names(st.body) | mutated_names(st.body)
         if kind == "for":
             info.iter = self.expr(st.iter, p)
             info.target = st.target
@@ -767,7 +781,7 @@ class Evaluator:
             elems = None
             if isinstance(st.iter, ast.Constant) and isinstance(st.iter.value, str) and 0 < len(st.iter.value) <= 4:
                 elems = [ast.Constant(value=c) for c in st.iter.value]
-            elif isinstance(st.iter, (ast.Tuple, ast.List)) and 0 < len(st.iter.elts) <= 4 and all(isinstance(e, ast.Constant) for e in st.iter.elts):
+            elif isinstance(st.iter, (ast.Tuple, ast.List)) and 0 < len(st.iter.elts) <= 4 and not any(isinstance(e, ast.Starred) for e in st.iter.elts):
                 elems = list(st.iter.elts)
             has_jump = any(isinstance(n, (ast.Break, ast.Continue)) for b in st.body for n in ast.walk(b))
             if elems is not None and not has_jump:
@@ -897,7 +911,7 @@ class Evaluator:
             return ("unbound", n)
         r = self.p.resolve_module_name(self.module, n)
         if r is not None:
-            return ("global", self.module.name, n)
+            return canonical_global(self.p, self.module, n, r)
         return ("builtin", n)
 
     def expr(self, node, p, maybe=False):
@@ -909,7 +923,15 @@ class Evaluator:
         if isinstance(node, ast.Name):
             return self.name(node.id, p)
         if isinstance(node, ast.Attribute):
-            return ("attr", ev(node.value), node.attr)
+            b = ev(node.value)
+            if b[0] == "global":
+                # attribute of a package module: name it by its defining module (aliases and import styles coincide)
+                rb = self.p.resolve_module_name(self.p.modules[b[1]], b[2]) if b[1] in self.p.modules else None
+                if rb and rb[0] == "module":
+                    r2 = self.p.resolve_module_name(rb[1], node.attr)
+                    if r2 is not None:
+                        return canonical_global(self.p, rb[1], node.attr, r2)
+            return ("attr", b, node.attr)
         if isinstance(node, ast.Call):
             f = ev(node.func)
             args = []
@@ -1252,6 +1274,21 @@ ANCHORS = {
 }
 
 
+def canonical_global(prog, module, name, r):
+    """Term for a module-level name: ("global", <defining package module>, <its name there>) for package
+    objects, ("global", <using module>, <local name>) for anything imported from outside the package."""
+    k = r[0]
+    if k == "func":
+        f = r[1]
+        if f.cls is None:
+            return ("global", f.module.name, f.name)
+    if k == "class":
+        return ("global", r[1].module.name, r[1].name)
+    if k == "const":
+        return ("global", r[1].name, r[2])
+    return ("global", module.name, name)
+
+
 def canonical_args(callee, skip, args, kwargs):
     """Keyword arguments of a call to a package function moved to their positional slot
     (as far as the positional prefix stays contiguous)."""
@@ -1538,6 +1575,8 @@ class FunctionPaths:
         """Every effect of the function, de-duplicated by node identity."""
         seen = {}
         for p in self.paths:
+            if not p.feasible():
+                continue
             for e, ls in walk_effects(p.effects):
                 key = (id(e.node), e.kind, repr(e.a) if e.kind != "loop" and e.kind != "loop_partial" else id(e.a))
                 if key not in seen:
